@@ -691,10 +691,12 @@ func CheckFixedPointLiteral(
 			return false
 		}
 
+		// The bounds' fractional parts have the type's scale,
+		// so compare the literal's fractional part at that scale, not its digits as written
 		if !fixedpoint.CheckRange(
 			expression.Negative,
 			expression.UnsignedInteger,
-			expression.Fractional,
+			fixedpoint.ScaleFractional(expression.Fractional, expression.Scale, scale),
 			minInt,
 			minFractional,
 			maxInt,
